@@ -887,7 +887,7 @@ class Spectrum(numpy.ma.masked_array):
                     this_snp = chromos[snp::segsites+1]
                     # Count SNPs per population, and record them.
                     if dimension == 1:
-                        data[this_snp.count('1')] += 1
+                        data[this_snp[bottom_l[0]:top_l[0]].count('1')] += 1
                     elif dimension == 2:
                         data[this_snp[bottom0:top0].count('1'), 
                              this_snp[bottom1:top1].count('1')] += 1
